@@ -9,7 +9,12 @@ CONFIG = worlda.base_config(
     "it and the folder is renumbered), mixing expunge/move of arbitrary subsets, appends, copies, deliveries, rename and orderly restart, with idle waits "
     "of 1-25 virtual seconds so the management task reaches its pack path; 1-2 sessions. After every op the observer's UID FETCH 1:* (BODY.PEEK[] "
     "INTERNALDATE) must return byte-identical content and date for every UID seen before, sequence numbers 1..n must map one-to-one onto ascending UIDs and "
-    "the (uid, token) list must equal the model. non-trivial = >=1 removal or pack-relevant op; distinct = op signatures",
+    "the (uid, token) list must equal the model. A second family (40% of the programs) runs 2-3 sessions concurrently on one mailbox under the full latency "
+    "swarm - one expunging/moving/closing while the others UID FETCH body items and (UID) STORE - with three oracles that hold under every schedule: a UID "
+    "FETCH returns the requested items only for UIDs of its set (uid_fetch_wrong_message) and for every UID of the set that is still there at the end "
+    "(uid_fetch_missing); every STORE carries a keyword unique to it, and at quiescence the observer finds that keyword only on messages the command's set "
+    "denoted when it was sent (store_hit_wrong_message; sequence numbers denote through the session's replayed view). "
+    "non-trivial = >=1 removal or pack-relevant op; distinct = op signatures",
     level_text="content-stability and seq/UID/message bijection checked against first-observation references and the reference model after every op of seeded "
     "histories; packing is made reachable by randomising the two pack knobs per run.",
     expected_probes=["pack_ran", "expunge_removed_messages"],
@@ -21,7 +26,19 @@ W = {
 }
 
 
+CONC_W = {
+    "select": 1, "append": 1, "store": 5, "delete_flag": 4, "fetch": 6, "expunge": 5, "move": 2.5, "copy": 1, "noop": 1.5, "close": 0.7, "deliver": 1, "wait": 0.5,
+}
+
+
 def profile(r, tier, index):
+    if r.random() < 0.4:
+        return {
+            "mailboxes": ["inbox", "work"][: r.randint(1, 2)], "sessions": r.randint(2, 3), "weights": CONC_W, "init_lo": 4, "init_hi": 10, "sparse": r.random() < 0.5,
+            "ops_lo": 12, "ops_hi": 40 if tier == "thorough" else 30, "mode": "concurrent", "compare": False, "tag_stores": True, "bad_set_p": 0.02,
+            "pack_knob": r.random() < 0.3, "pack_p": 0.9, "quiet_p": 0.1, "examine_p": 0.0,
+            "fetch_items": ["(UID BODY.PEEK[])", "(UID INTERNALDATE)", "(BODY.PEEK[HEADER.FIELDS (X-Tok)])", "(UID BODY.PEEK[HEADER.FIELDS (X-Tok)] FLAGS)"],
+        }
     return {
         "mailboxes": ["inbox", "work"], "sessions": r.randint(1, 2), "weights": W, "init_lo": 3, "init_hi": 12, "sparse": True,
         "ops_lo": 10, "ops_hi": 45 if tier == "thorough" else 30, "mode": "sequential", "pack_knob": True, "pack_p": 0.9, "bad_set_p": 0.02,
@@ -30,4 +47,11 @@ def profile(r, tier, index):
     }
 
 
-generate, execute, simplifications = _common.make(PROP, profile, CONFIG)
+def post(prog, r, tier, prof):
+    if prog["mode"] == "concurrent":
+        for op in prog["ops"]:
+            op["when"] = {"delay": r.choice((0.0, 0.0, 0.0, 0.001, 0.01, 0.05, 0.3))}
+    return prog
+
+
+generate, execute, simplifications = _common.make(PROP, profile, CONFIG, post)
